@@ -354,11 +354,20 @@ def check_modes(ctx):
             ok_int = pat.fullmatch(comp_var.sub('[self._greedy_order(stochastic=True)for_inrange(', t)) is not None
         else:
             ok_given = t == p
-    ctx.ob('order-modes', fi, fi.node, ok_none, 'order None selects the deterministic greedy order; the triangulation eliminates `%s`' % U(used)[:200],
-           construct='order None')
-    ctx.ob('order-modes', fi, fi.node, ok_int,
-           'an integer selects the cheapest among the greedy order and that many randomised orders', construct='integer order mode')
-    ctx.ob('order-modes', fi, fi.node, ok_given, 'any other value is used as the elimination order as given', construct='given order')
+    undecided_modes = None
+    if isinstance(used, ast.Name) and len(leaves) == 1 and not (ok_none and ok_int and ok_given) and \
+            any(isinstance(n, (ast.For, ast.While)) and any(isinstance(x, ast.Name) and x.id == used.id and isinstance(x.ctx, ast.Store) for x in ast.walk(n))
+                for n in ast.walk(fi.node)):
+        # the order is settled by a loop (e.g. a running best over restarts): its three modes are not read off a closed term here
+        undecided_modes = 'the elimination order `%s` is settled by a loop; its modes (None / integer / given) are neither confirmed nor refuted' % used.id
+        ok_none = ok_int = ok_given = None
+    if undecided_modes is None:
+        ctx.ob('order-modes', fi, fi.node, ok_none, 'order None selects the deterministic greedy order; the triangulation eliminates `%s`' % U(used)[:200],
+               construct='order None')
+    if undecided_modes is None:
+        ctx.ob('order-modes', fi, fi.node, ok_int,
+               'an integer selects the cheapest among the greedy order and that many randomised orders', construct='integer order mode')
+        ctx.ob('order-modes', fi, fi.node, ok_given, 'any other value is used as the elimination order as given', construct='given order')
     store = [(v, s_) for t_, v, s_ in be.stores if t_ == 'self.elimination_order']
     def same_seq(v):
         # the very same value (one evaluation): a given order may be a one-shot iterable, `list(order)` next to a second use of
@@ -367,6 +376,8 @@ def check_modes(ctx):
     ctx.ob('order-modes', fi, store[0][1] if store else fi.node, bool(store) and all(same_seq(v) for v, _ in store),
            'the order actually used is recorded as elimination_order (synthetic data generation walks it backwards) - the same value, evaluated once: a given order may be a one-shot iterable',
            construct='recorded elimination order')
+    if undecided_modes is not None:
+        raise AnalysisError('_make_tree: ' + undecided_modes)
 
 
 def walk_function(fi):
@@ -525,5 +536,17 @@ def check_separators(ctx):
     mc = ctx.repo.nfunc(JT, 'JunctionTree.maximal_cliques')
     nb = ctx.repo.nfunc(JT, 'JunctionTree.neighbors')
     r1 = [r for r in walk_shallow(mc.node) if isinstance(r, ast.Return)]
-    ok = bool(r1) and U(r1[-1].value).replace(' ', '') in ('list(nx.dfs_preorder_nodes(self.tree))', 'list(self.tree.nodes())', 'list(self.tree.nodes)')
-    ctx.ob('cliques-of-triangulation', mc, r1[-1] if r1 else mc.node, ok, 'maximal_cliques enumerates exactly the nodes of the tree')
+    from ..normalise import Defs, expand
+    import re
+    rt = U(expand(r1[-1].value, Defs(mc.body))).replace(' ', '') if r1 else ''
+    # a depth-first PREORDER of the tree: every clique is listed after its tree parent (GraphicalModel.mle divides a clique's marginal by
+    # the separator marginal shared with a clique listed earlier).  dfs_tree without a source adds all nodes first: insertion order.
+    pre = re.fullmatch(r'list\(nx\.dfs_preorder_nodes\(self\.tree(,.+)?\)\)', rt) is not None or \
+        re.fullmatch(r'list\(nx\.dfs_tree\(self\.tree,(?:source=)?.+\)(\.nodes(\(\))?)?\)', rt) is not None
+    unordered = rt in ('list(self.tree.nodes())', 'list(self.tree.nodes)', 'list(self.tree)', 'list(nx.dfs_tree(self.tree).nodes())', 'list(nx.dfs_tree(self.tree).nodes)',
+                       'list(nx.dfs_tree(self.tree))')
+    if not pre and not unordered:
+        raise AnalysisError('maximal_cliques: `%s` is in no recognised form' % rt[:80])
+    ctx.ob('cliques-of-triangulation', mc, r1[-1] if r1 else mc.node, pre,
+           'maximal_cliques enumerates the nodes of the tree in depth-first preorder (parents before children: GraphicalModel.mle relies on it)%s'
+           % ('' if pre else '; `%s` lists them in insertion order' % rt))
